@@ -473,3 +473,208 @@ func wholeOfValue(v, base ssa.Value) bool {
 	}
 	return false
 }
+
+// RuleD11 — all-or-nothing decoding: a rejected input leaves the destination untouched.
+func RuleD11(targets [][4]string) Rule {
+	return func(c *Ctx) {
+		c.Rule("D11", "all-or-nothing decoding: in the listed decoders no write to the destination can be followed by an error return — every check is made on locals and the destination is assigned only once the input has been accepted (a rejected input must not leave a half-updated element behind)")
+		st := c.wfxGet()
+		n := 0
+		for _, t := range targets {
+			fn := c.P.Fn(t[0], t[1], t[2])
+			if fn == nil {
+				c.Unresolved("D11", strings.Join(t[:3], "."))
+				continue
+			}
+			s := st.sums[fn]
+			if s == nil {
+				s = st.onDemand(fn)
+			}
+			if s == nil {
+				c.Und("D11", core.FnName(fn), fn.Pos(), "no write summary")
+				continue
+			}
+			c.Saw(core.FnName(fn))
+			n++
+			key := core.FnName(fn) + "#" + t[3]
+			var writes []ssa.Instruction
+			for _, cz := range s.Causes["param:"+t[3]] {
+				if cz.at == nil || cz.at.Parent() != fn {
+					continue
+				}
+				// a call to another listed decoder is all-or-nothing by its own obligation
+				if ci, isCall := cz.at.(ssa.CallInstruction); isCall {
+					if callee := core.Callee(ci.Common()); callee != nil {
+						listed := false
+						for _, t2 := range targets {
+							if c.P.Fn(t2[0], t2[1], t2[2]) == callee {
+								listed = true
+							}
+						}
+						if listed {
+							continue
+						}
+					}
+				}
+				writes = append(writes, cz.at)
+			}
+			var errRets []*ssa.Return
+			for _, r := range core.Returns(fn) {
+				if k := len(r.Results); k > 0 && isErrorType(r.Results[k-1].Type()) && !core.IsNilConst(r.Results[k-1]) {
+					errRets = append(errRets, r)
+				}
+			}
+			ok := true
+			why := ""
+			for _, w := range writes {
+				for _, r := range errRets {
+					if core.CanReach(fn, w, r) {
+						ok = false
+						why = fmt.Sprintf("the error return at %s is reachable after the write to %s at %s: a rejected input leaves the destination partly overwritten", c.P.Pos(r.Pos()), t[3], c.P.Pos(w.Pos()))
+					}
+				}
+			}
+			c.Check(ok, "D11", key, fn.Pos(), core.FnName(fn)+": "+why, fmt.Sprintf("%d write point(s), %d error return(s), none reachable after a write", len(writes), len(errRets)))
+		}
+		c.FloorN("D11", len(targets), n, "decoders")
+	}
+}
+
+var atomicDecoders = [][4]string{
+	{"banderwagon", "Element", "setBytes", "p"},
+	{"banderwagon", "Element", "SetBytesUncompressed", "p"},
+	{"banderwagon", "Element", "SetBytes", "p"},
+	{"banderwagon", "Element", "SetBytesUnsafe", "p"},
+	{"bandersnatch/fr", "Element", "SetBytesLECanonical", "z"},
+}
+
+// RuleZ2 — group-element locals are set before they are used as operands.
+func RuleZ2(c *Ctx) {
+	c.Rule("Z2", "no zero-value points: every local of a group-element type (banderwagon.Element, the bandersnatch point types) is written — assigned, or the receiver/output of an operation — on every path before it is read as an operand or observed; the Go zero value (0,0,0) is not a point, is absorbing under addition, and compares equal to everything under the cross-product test")
+	st := c.wfxGet()
+	isPointType := func(t types.Type) bool {
+		if p, ok := t.Underlying().(*types.Pointer); ok {
+			t = p.Elem()
+		}
+		n, ok := t.(*types.Named)
+		if !ok || n.Obj().Pkg() == nil {
+			return false
+		}
+		path, name := n.Obj().Pkg().Path(), n.Obj().Name()
+		switch {
+		case strings.HasSuffix(path, "/banderwagon") && name == "Element":
+			return true
+		case strings.HasSuffix(path, "/bandersnatch") && (name == "PointProj" || name == "PointAffine" || name == "PointExtended" || name == "PointExtendedNormalized"):
+			return true
+		}
+		return false
+	}
+	n := 0
+	for _, top := range c.P.TopFuncs() {
+		if inHelperPkg(top) || isInit(top) {
+			continue
+		}
+		for _, fn := range core.Family(top) {
+			core.AllInstrs(fn, func(i ssa.Instruction) {
+				al, ok := i.(*ssa.Alloc)
+				if !ok || core.ParamSpill(al) != nil || !isPointType(al.Type()) {
+					return
+				}
+				// captured by a closure: out of reach of an intraprocedural rule
+				for _, r := range core.Refs(al) {
+					if _, isMC := r.(*ssa.MakeClosure); isMC {
+						return
+					}
+				}
+				cuts := core.NewCuts()
+				var reads []ssa.Instruction
+				rooted := func(v ssa.Value) bool {
+					for d := 0; d < 6; d++ {
+						if v == ssa.Value(al) {
+							return true
+						}
+						fa, ok := v.(*ssa.FieldAddr)
+						if !ok {
+							return false
+						}
+						v = fa.X
+					}
+					return false
+				}
+				core.AllInstrs(fn, func(u ssa.Instruction) {
+					switch x := u.(type) {
+					case *ssa.Store:
+						if rooted(x.Addr) {
+							cuts.AddInstr(x)
+						}
+					case *ssa.UnOp:
+						if x.Op == token.MUL && rooted(x.X) {
+							reads = append(reads, x)
+						}
+					case ssa.CallInstruction:
+						cc := x.Common()
+						if cc.IsInvoke() {
+							return
+						}
+						callee := core.Callee(cc)
+						var sum *wsummary
+						if callee != nil {
+							if st.scope(callee) && len(callee.Blocks) > 0 {
+								sum = st.sums[callee]
+								if sum == nil {
+									sum = st.onDemand(callee)
+								}
+							} else {
+								sum = trustSummary(c.P, callee)
+							}
+						}
+						wrote, read := false, false
+						for k, a := range cc.Args {
+							if !rooted(a) {
+								continue
+							}
+							if sum == nil || sum.W[k] {
+								wrote = true
+							} else {
+								read = true
+							}
+						}
+						// the same local as output and as operand: p.Add(&p, &q) reads p
+						if wrote {
+							cnt := 0
+							for _, a := range cc.Args {
+								if rooted(a) {
+									cnt++
+								}
+							}
+							if cnt > 1 {
+								read = true
+							}
+						}
+						if read {
+							reads = append(reads, x)
+						}
+						if wrote && !read {
+							cuts.AddInstr(x)
+						}
+					}
+				})
+				if len(reads) == 0 {
+					return
+				}
+				n++
+				c.Saw(core.FnName(fn))
+				key := fmt.Sprintf("%s:%s@%s", core.FnName(fn), al.Comment, c.relInFn(fn, al.Pos()))
+				bad := ""
+				for _, r := range reads {
+					if cuts.Empty() || !core.MustPass(fn, cuts, r) {
+						bad = fmt.Sprintf("the local %s is read at %s on a path where it still holds the zero value (it is set only on some paths, or not at all)", al.Comment, c.P.Pos(r.Pos()))
+						break
+					}
+				}
+				c.Check(bad == "", "Z2", key, al.Pos(), core.FnName(fn)+": "+bad, "written on every path before every read")
+			})
+		}
+	}
+	c.FloorN("Z2", 10, n, "group-element locals")
+}
